@@ -359,5 +359,5 @@ def run(acc, tier):
     if tier == "quick":
         engine.pmap(acc, shard_generated, extra=(40, 80, 1, 60))
     else:
-        engine.pmap(acc, shard_generated, extra=(500, 1000, 8, 120))
-        engine.fuzz(acc, "bisc", CHECKS, 3000, max_len=48, corpus_seeds=[[3, 2] + [1, 0] * 17])
+        engine.pmap(acc, shard_generated, extra=(2500, 5000, 16, 120))
+        engine.fuzz(acc, "bisc", CHECKS, 15000, max_len=48, corpus_seeds=[[3, 2] + [1, 0] * 17])
